@@ -137,7 +137,7 @@ def hostile_replies(w, res, r):
     w.handler = wproxy.World.default_handler
 
 
-def e2e(w, res, r, scratch):
+def e2e(w, res, r, scratch, args_tier="quick"):
     """layer 2: hostile requests and hostile caller identities through the real listener with a key latched"""
     def bump(k, n=1):
         res["counts"][k] = res["counts"].get(k, 0) + n
@@ -215,6 +215,25 @@ def e2e(w, res, r, scratch):
             bump("e2e:odd-percent-target")
             res["nontrivial"].append("e2e-odd-target:%d:%s" % (ti, attributed))
             after("request-target-with-odd-percent-escapes", "t%d" % ti, {"target": target[:120], "attributed": attributed}, got)
+    # rule documents as the host may send them (dangling role / identity / privilege names, duplicates, empty sections, odd letter case): set the
+    # way the key keeper sets them, then requests that exercise the compiled rules
+    from .. import gen_rbac
+    for di in range(60 if args_tier == "quick" else 1500):
+        doc = gen_rbac.gen_doc(r, dup_ok=True, mode=r.choice(["enforce", "audit", "Enforce"]))
+        try:
+            w.rules("imds", doc)
+        except common.Inconclusive:
+            continue        # the document was refused as a whole: nothing to exercise
+        for k in range(3):
+            c = w.open("imds", root, timeout=60)
+            got = talk(c, rawhttp.build_request("GET", gen_rbac.gen_url(r), [("x-vf-id", "doc-%d-%d" % (di, k))]))
+            c.close()
+            bump("e2e:hostile-rule-document")
+            after("request-under-a-hostile-rule-document", "doc%d" % (di % 20), {"rules": doc}, got)
+        if any(v[0].startswith(("panic-at:request-under", "no-http-response:request-under", "listener-dead-after:request-under")) for v in res["violations"]):
+            break
+        res["nontrivial"].append("hostile-doc-%d" % (di % 40))
+    w.rules("imds", None)
     # the proxy's own /provision endpoint with hostile headers
     for tick, cls in ((b"12\xff34", "tick-non-ascii"), ("ü".encode(), "tick-utf8"), (b"9" * 60, "tick-huge"), (b"-1", "tick-negative"), (b"", "tick-empty"), (b"1e9", "tick-float")):
         for md in (b"True", b"\xfftrue", None):
@@ -440,7 +459,7 @@ def worker(args, scratch):
                 if not args.get("memcheck") and not any(v[0].startswith("process-died") for v in res["violations"]):
                     log_header_instants(w, res, 3000 if args["tier"] == "quick" else 60000)
             else:
-                e2e(w, res, r, scratch)
+                e2e(w, res, r, scratch, args["tier"])
         except shimmod.ShimDead as e:
             # the process hosting the agent code is gone (abort, e.g. an allocation failure): worse than a panic
             if not any(v[0].startswith("process-died") for v in res["violations"]):
